@@ -59,19 +59,19 @@ v("overlaps-benign-flip", ["C12"], CTX, "return (other.end >= self.start) and (o
 
 # ------------------------------------------------------------------ buffers (C13)
 CPU = "context_cpu.py"
-v("ba-slice-short", ["C13"], CPU, "    def update_from_native(self, offset, source, source_offset, nbytes):\n        \"\"\"Copy data from native buffer into self.buffer starting from offset\"\"\"\n        self.buffer[offset : offset + nbytes] = source[\n            source_offset : source_offset + nbytes\n        ]\n\n    def to_native(self, offset, nbytes):\n        \"\"\"return native data with content at from offset and nbytes\"\"\"\n        return self.buffer[offset : offset + nbytes].copy()\n\n    def copy_to_native(self, dest, dest_offset, source_offset, nbytes):\n        \"\"\"copy data from self.buffer into dest\"\"\"\n        dest[dest_offset : dest_offset + nbytes] = self.buffer[\n            source_offset : source_offset + nbytes\n        ]\n\n    def update_from_buffer(self, offset, source):\n        \"\"\"Copy data from python buffer such as bytearray, bytes, memoryview, numpy array.data\"\"\"\n        nbytes = len(source)\n        self.buffer[offset : offset + nbytes] = source\n",
-  "    def update_from_native(self, offset, source, source_offset, nbytes):\n        \"\"\"Copy data from native buffer into self.buffer starting from offset\"\"\"\n        self.buffer[offset : offset + nbytes] = source[\n            source_offset : source_offset + nbytes\n        ]\n\n    def to_native(self, offset, nbytes):\n        \"\"\"return native data with content at from offset and nbytes\"\"\"\n        return self.buffer[offset : offset + nbytes - 1].copy()\n\n    def copy_to_native(self, dest, dest_offset, source_offset, nbytes):\n        \"\"\"copy data from self.buffer into dest\"\"\"\n        dest[dest_offset : dest_offset + nbytes] = self.buffer[\n            source_offset : source_offset + nbytes\n        ]\n\n    def update_from_buffer(self, offset, source):\n        \"\"\"Copy data from python buffer such as bytearray, bytes, memoryview, numpy array.data\"\"\"\n        nbytes = len(source)\n        self.buffer[offset : offset + nbytes] = source\n", rule="B1")
+v("ba-slice-short", ["C13"], CPU, "        return self.buffer[offset : offset + nbytes].copy()\n\n    def copy_to_native(self, dest, dest_offset, source_offset, nbytes):\n        \"\"\"copy data from self.buffer into dest\"\"\"\n        dest[dest_offset : dest_offset + nbytes] = self.buffer[\n            source_offset : source_offset + nbytes\n        ]\n\n    def update_from_buffer(self, offset, source):\n        \"\"\"Copy data from python buffer such as bytearray, bytes, memoryview, numpy array.data\"\"\"\n        # len() of a typed memoryview (numpy array.data) counts items\n        nbytes = getattr(source, \"nbytes\", len(source))\n        self.buffer[offset : offset + nbytes] = source\n",
+  "        return self.buffer[offset : offset + nbytes - 1].copy()\n\n    def copy_to_native(self, dest, dest_offset, source_offset, nbytes):\n        \"\"\"copy data from self.buffer into dest\"\"\"\n        dest[dest_offset : dest_offset + nbytes] = self.buffer[\n            source_offset : source_offset + nbytes\n        ]\n\n    def update_from_buffer(self, offset, source):\n        \"\"\"Copy data from python buffer such as bytearray, bytes, memoryview, numpy array.data\"\"\"\n        # len() of a typed memoryview (numpy array.data) counts items\n        nbytes = getattr(source, \"nbytes\", len(source))\n        self.buffer[offset : offset + nbytes] = source\n", rule="B1")
 v("np-tobytearray-view", ["C13"], CPU, "        return bytearray(self.buffer[offset : offset + nbytes])", "        return self.buffer[offset : offset + nbytes]", rule="B2")
 v("np-tonative-view", ["C13"], CPU, "class BufferNumpy(XBuffer):\n    def _make_context(self):\n        return ContextCpu()\n\n    def _new_buffer(self, capacity):\n        return np.zeros(capacity, dtype=\"int8\")\n\n    def update_from_native(self, offset, source, source_offset, nbytes):\n        \"\"\"Copy data from native buffer into self.buffer starting from offset\"\"\"\n        self.buffer[offset : offset + nbytes] = source[\n            source_offset : source_offset + nbytes\n        ]\n\n    def to_native(self, offset, nbytes):\n        \"\"\"return native data with content at from offset and nbytes\"\"\"\n        return self.buffer[offset : offset + nbytes].copy()",
   "class BufferNumpy(XBuffer):\n    def _make_context(self):\n        return ContextCpu()\n\n    def _new_buffer(self, capacity):\n        return np.zeros(capacity, dtype=\"int8\")\n\n    def update_from_native(self, offset, source, source_offset, nbytes):\n        \"\"\"Copy data from native buffer into self.buffer starting from offset\"\"\"\n        self.buffer[offset : offset + nbytes] = source[\n            source_offset : source_offset + nbytes\n        ]\n\n    def to_native(self, offset, nbytes):\n        \"\"\"return native data with content at from offset and nbytes\"\"\"\n        return self.buffer[offset : offset + nbytes]", rule="B2")
 v("np-nplike-copy", ["C13"], CPU, "        # dtype=np.dtype(dtype)\n        # return self.buffer[offset:].view(dtype)[:count].reshape(*shape)\n        return np.frombuffer(\n            self.buffer, dtype=dtype, count=count, offset=offset\n        ).reshape(*shape)", "        return np.frombuffer(\n            self.buffer, dtype=dtype, count=count, offset=offset\n        ).reshape(*shape).copy()", rule="B2")
 v("np-nplike-no-offset", ["C13"], CPU, "        # dtype=np.dtype(dtype)\n        # return self.buffer[offset:].view(dtype)[:count].reshape(*shape)\n        return np.frombuffer(\n            self.buffer, dtype=dtype, count=count, offset=offset\n        ).reshape(*shape)", "        return np.frombuffer(\n            self.buffer, dtype=dtype, count=count, offset=0\n        ).reshape(*shape)", rule="B1")
-v("np-nplike-noconvert", ["C13"], CPU, "        if dest_dtype != value.dtype:\n            value = value.astype(dtype=dest_dtype)  # make a copy\n        src = value.view(\"int8\")\n        self.buffer[offset : offset + src.nbytes] = value.flatten().view(\n            \"int8\"\n        )\n\n    def to_bytearray(self, offset, nbytes):\n        \"\"\"copy in byte array: used in update_from_xbuffer\"\"\"\n        return bytearray(",
-  "        src = value.view(\"int8\")\n        self.buffer[offset : offset + src.nbytes] = value.flatten().view(\n            \"int8\"\n        )\n\n    def to_bytearray(self, offset, nbytes):\n        \"\"\"copy in byte array: used in update_from_xbuffer\"\"\"\n        return bytearray(", rule="B1")
+v("np-nplike-noconvert", ["C13"], CPU, "        if dest_dtype != value.dtype:\n            value = value.astype(dtype=dest_dtype)  # make a copy\n        self.buffer[offset : offset + value.nbytes] = value.flatten().view(\n", "        self.buffer[offset : offset + value.nbytes] = value.flatten().view(\n", rule="B1")
 v("xbuf-dispatch-args", ["C13", "C09"], CTX, "            data = source.to_bytearray(source_offset, nbytes)\n            self.update_from_buffer(offset, data)", "            data = source.to_bytearray(offset, nbytes)\n            self.update_from_buffer(offset, data)", rule="B3")
 v("xbuf-dispatch-native", ["C13", "C09"], CTX, "                offset, source.buffer, source_offset, nbytes\n", "                offset, source.buffer, offset, nbytes\n", rule="B3")
 v("scalar-read-size", ["C13", "C01"], "scalar.py", "        data = buffer.to_bytearray(offset, self._size)", "        data = buffer.to_bytearray(offset, 8)", rule="SC")
-v("np-benign-rename", ["C13"], CPU, "        nbytes = len(source)\n        self.buffer[offset : offset + nbytes] = bytearray(source)", "        n = len(source)\n        self.buffer[offset : n + offset] = bytearray(source)", expect="silent")
+v("np-benign-rename", ["C13"], CPU, "        nbytes = getattr(source, \"nbytes\", len(source))\n        self.buffer[offset : offset + nbytes] = bytearray(source)", "        n = getattr(source, \"nbytes\", len(source))\n        self.buffer[offset : n + offset] = bytearray(source)", expect="silent")
+v("buf-len-items", ["C13"], CPU, "        nbytes = getattr(source, \"nbytes\", len(source))\n        self.buffer[offset : offset + nbytes] = bytearray(source)", "        nbytes = len(source)\n        self.buffer[offset : offset + nbytes] = bytearray(source)", rule="B1e", note="PF25 again")
 
 # ------------------------------------------------------------------ guards / layout (C01 C03 C05 C06 C09 C10 C11)
 ARR, STR = "array.py", "struct.py"
